@@ -3,6 +3,9 @@ CONSTANTS
   A1 = 64
   T0 = 3000
   T1PerKiB = 20
+  R0 = 65536
+  R1 = 8
+  Q0 = 2097152
 INIT Init
 NEXT Next
 CONSTRAINT Judge
